@@ -753,6 +753,8 @@ func ForC16(thorough bool) []Family {
 			LongRuns("mini", []int{8, 9, 504, 505}, false),
 			StructureExhaustive("person", 2, 2, true, 30),
 			StructureExhaustive("document", 3, 2, true, 40),
+			Extremes("mini", false),
+			Extremes("person", false),
 		}
 	}
 	return []Family{
@@ -762,5 +764,8 @@ func ForC16(thorough bool) []Family {
 		LongRuns("person", []int{8, 9, 504, 505, 1001}, false),
 		StructureExhaustive("person", 3, 2, true, 80),
 		StructureExhaustive("document", 4, 2, true, 120),
+		Extremes("mini", true),
+		Extremes("person", true),
+		Extremes("flat24", true),
 	}
 }
